@@ -9,8 +9,9 @@ COMMS = {'$': ('pre', 2), 'EUR': ('suf', 2), 'AAA': ('suf', 0), 'BBB': ('suf', 3
 
 class Amt:
     """a decimal literal with commodity; value = digits/10^dec (sign applied)"""
-    def __init__(self, value, dec, sym):
+    def __init__(self, value, dec, sym, marks=False):
         self.value, self.dec, self.sym = F(value), dec, sym
+        self.marks = marks          # written with thousands marks (teaches the commodity that style)
 
     @staticmethod
     def rand(rng, sym, dec=None, lo=1, hi=99999):
@@ -28,6 +29,10 @@ class Amt:
         if self.dec:
             s = s.rjust(self.dec + 1, '0')
             s = s[:-self.dec] + '.' + s[-self.dec:]
+        if getattr(self, 'marks', False):
+            ip, _, fp = s.partition('.')
+            ip = re.sub(r'(?<=\d)(?=(\d{3})+$)', ',', ip)
+            s = ip + ('.' + fp if fp else '')
         sign = '-' if v < 0 else ''
         if self.sym is None:
             return sign + s
@@ -200,7 +205,9 @@ def parse_errors(err, path, text=None):
     """stderr -> {xact index: class}; an error is attributed to the transaction whose line range
     contains the line named in `While parsing file "F", line N:` (or the `> DATE xN` context)"""
     res = {}
-    ranges = line_ranges(text) if text else []
+    # `text` is the journal text, or {file base name: text} when the journal is spread over included files
+    by_file = {k: line_ranges(v) for k, v in text.items()} if isinstance(text, dict) else None
+    ranges = [] if by_file is not None else (line_ranges(text) if text else [])
     msg = err.decode('utf-8', 'replace')
     for block in re.split(r'(?=While parsing file)', msg):
         e = re.search(r'^Error: (.*)$', block, re.M)
@@ -215,10 +222,10 @@ def parse_errors(err, path, text=None):
         if m:
             idx = int(m.group(1))
         else:
-            h = re.search(r'While parsing file "[^"]*", lines? (\d+)', block)
+            h = re.search(r'While parsing file "([^"]*)", lines? (\d+)', block)
             if h:
-                ln = int(h.group(1))
-                for a, b, i in ranges:
+                ln = int(h.group(2))
+                for a, b, i in (by_file.get(h.group(1).rsplit('/', 1)[-1], []) if by_file is not None else ranges):
                     if a <= ln <= b:
                         idx = i
         if idx is not None:
